@@ -28,6 +28,7 @@ type World struct {
 	Specs         map[string]*SpecFunc
 	ContractFiles []string
 	LoadSeconds   float64
+	NonNilGlobals map[*ssa.Global]bool
 	TypeInvs      map[string][]*Clause // receiver type key, e.g. (*frame.codec)
 }
 
@@ -71,6 +72,7 @@ func Load(dir string, overlay map[string][]byte) (*World, error) {
 			w.Funcs[FuncKey(fn)] = fn
 		}
 	}
+	w.findNonNilGlobals()
 	// contracts: //@ comment blocks in *_verif.go files
 	for _, p := range pkgs {
 		for i, file := range p.Syntax {
@@ -365,3 +367,38 @@ var _ = ast.Inspect
 
 // ModSetList exposes the static mod-set of fn (diagnostics).
 func (w *World) ModSetList(fn *ssa.Function) []string { return w.modSet(fn).list() }
+
+// findNonNilGlobals: interface-typed package variables whose only store is "errors.New(...)" / "fmt.Errorf(...)" in
+// the package initialiser.
+func (w *World) findNonNilGlobals() {
+	w.NonNilGlobals = map[*ssa.Global]bool{}
+	stores := map[*ssa.Global]int{}
+	good := map[*ssa.Global]bool{}
+	for fn := range ssautil.AllFunctions(w.Prog) {
+		for _, b := range fn.Blocks {
+			for _, in := range b.Instrs {
+				st, ok := in.(*ssa.Store)
+				if !ok {
+					continue
+				}
+				g, ok := st.Addr.(*ssa.Global)
+				if !ok {
+					continue
+				}
+				stores[g]++
+				if fn.Name() == "init" {
+					if call, ok := st.Val.(*ssa.Call); ok {
+						if cal := call.Call.StaticCallee(); cal != nil && (cal.String() == "errors.New" || cal.String() == "fmt.Errorf") {
+							good[g] = true
+						}
+					}
+				}
+			}
+		}
+	}
+	for g := range good {
+		if stores[g] == 1 {
+			w.NonNilGlobals[g] = true
+		}
+	}
+}
